@@ -191,7 +191,7 @@ def check_C12(work, prop, tier, seed, t0):
     drive = build_harness(work)
     model_runs = [pool_model(work, 1)]
     # short fill/drain cycles so that nodes of every class are released by one tree and picked up by another many times
-    kinds = "uint8:fan64,alpha/string:fanb,int8:fan64,alpha/bytes:fan64,uint16:fanb" if q else "uint8:fan1,alpha/string:fan1x,int8:fan64,alpha/bytes:fanb,uint8:fan64"
+    kinds = "uint8:fan64,alpha/string:fanb,uint16:fanp64,alpha/bytes:fan64,uint32:fanp64" if q else "uint8:fan1,alpha/string:fan1x,int8:fan64,alpha/bytes:fanb,uint8:fan64"
     ni = []
     for ku in kinds.split(","):
         k, u = ku.split(":")
